@@ -26,7 +26,7 @@ ASSUMPTIONS = [
     "element masses from RDKit's periodic table, tolerance 0.02",
     "scratch copies of the bundled parameter files are created under a temporary directory at run time and removed",
 ]
-BOUNDS = {"quick": "14 molecules, all permutations up to 5 heavy atoms, call sequences to depth 3 over 5 actions", "thorough": "22 molecules, permutations up to 6 heavy atoms, call sequences to depth 4"}
+BOUNDS = {"quick": "14 molecules, all permutations up to 5 heavy atoms, call sequences to depth 3 over 7 actions (incl. failing typing calls)", "thorough": "22 molecules, permutations up to 6 heavy atoms, call sequences to depth 4"}
 CASE_TIMEOUT = {"quick": 900, "thorough": 3000}
 
 MOLS = [
@@ -45,7 +45,7 @@ def enumerate_cases(tier, seed):
         yield ("renumber", {"mol": m, "tier": tier})
     yield ("errors", {})
     depth = 4 if tier == "thorough" else 3
-    acts = ["D", "A", "B", "As", "An"]
+    acts = ["D", "A", "B", "As", "An", "Xd", "Xa"]
     for first in acts:
         yield ("history", {"first": first, "depth": depth})
 
@@ -213,7 +213,9 @@ def eval_case(kind, data):
             paths[tag] = (os.path.join(d, f"rules_{tag}.par"), os.path.join(d, f"nb_{tag}.itp"))
             shutil.copy(srcs["s"], paths[tag][0])
             shutil.copy(srcs["n"], paths[tag][1])
-        ACT = {"D": (None, None), "A": paths["A"], "B": paths["B"], "As": (paths["A"][0], None), "An": (None, paths["A"][1])}
+        # Xd / Xa: typing a molecule the rules cannot type (must raise the dedicated error and leave no trace)
+        ACT = {"D": (None, None), "A": paths["A"], "B": paths["B"], "As": (paths["A"][0], None), "An": (None, paths["A"][1]), "Xd": (None, None), "Xa": paths["A"]}
+        untypable = [generate(t) for t in UNTYPABLE]
         probes = ["CC(=O)OC", "C{[>][<]CC([>])c1ccccc1[<]}|gauss(150,0)|[H]", "[NH3+]C"]
         mgs = [generate(p) for p in probes]
         # baseline in a reset cache
@@ -239,6 +241,18 @@ def eval_case(kind, data):
                 exp = base[(step + nseq) % len(mgs)]
                 res["transitions"] += 1
                 res["traces"] += 1
+                if a in ("Xd", "Xa"):
+                    bad = untypable[(step + nseq) % len(untypable)]
+                    try:
+                        bad.get_forcefield_types(sfile, nfile)
+                        viol(res, f"C20|untypable-typed|call={a}", f"untypable molecule typed after {list(seq[:step])}", {"seq": list(seq), "step": step})
+                    except fh.FfAssignmentError:
+                        pass
+                    except Exception as e:  # noqa
+                        viol(res, f"C20|history-wrong-error|{type(e).__name__}|call={a}", f"untypable molecule after {list(seq[:step])} raises {type(e).__name__} instead of the assignment error", {"seq": list(seq), "step": step})
+                        break
+                    states.add((str(fh._global_smarts_rule_file).replace(tmp, ""), str(fh._global_nonbonded_itp_file).replace(tmp, "")))
+                    continue
                 try:
                     if a == "D" and step % 2 == 0:
                         ff, mol = mg.forcefield_types
